@@ -18,11 +18,11 @@ Init == l = 1
 
 Check(t) ==
   /\ \A k \in 1..Len(t.outs) :
-        \A v \in Violations(t.sig, t.batch, t.outs[k].groups) :
+        \A v \in Judge(t.sig, t.outs[k].proto, t.batch, t.outs[k].groups) :
            Viol([line |-> l, case |-> t.case, sig |-> t.sig, proto |-> t.outs[k].proto, kind |-> v.kind,
                  id |-> v.id, field |-> v.field, want |-> v.want, got |-> v.got])
   /\ \A k \in 2..Len(t.outs) :
-        ~SameMessage(t.outs[1].groups, t.outs[k].groups) =>
+        (t.outs[k].proto \in WireProtos /\ ~SameMessage(t.outs[1].groups, t.outs[k].groups)) =>
            Viol([line |-> l, case |-> t.case, sig |-> t.sig, proto |-> "both", kind |-> "pair",
                  id |-> 0, field |-> t.outs[k].proto, want |-> NA, got |-> NA])
   /\ ~t.same =>
